@@ -1,8 +1,8 @@
 (** Extraction of the executable C20 model and of the specification functions used as oracle.
     Only ExtrOcamlBasic is used.  The path is relative to the directory coqc runs in (coq/). *)
 From Coq Require Import Extraction ExtrOcamlBasic.
-From XV Require Import C20.Spec20 C20.Model20 C20.Hyps20.
+From XV Require Import C20.Spec20 C20.Model20 C20.Hyps20 C20.Text20.
 Extraction Language OCaml.
 Extraction "../ocaml/C20/gen_c20.ml"
   xi_parser xi_docproc xi_spec_doc annot erase_base enough_fuel resolve split_slash join_slash elem_base
-  get_base_attr drop_base_attr is_fatal under_theorem clean_fs clean_doc.
+  get_base_attr drop_base_attr is_fatal under_theorem clean_fs clean_doc include_text decode_whole.
